@@ -6,10 +6,13 @@ import (
 	"fmt"
 	"io"
 	"math/rand/v2"
+	"net/http"
 	"os"
 	"path/filepath"
+	"sort"
 	"strings"
 	"sync"
+	"syscall"
 	"time"
 
 	"verif/harness/lib"
@@ -40,6 +43,12 @@ type c08Image struct {
 	dir     string
 	point   string   // crash point class
 	indexed []string // lookup keys indexed at the crash instant
+	// acked: the image was taken after the operation under test had been acknowledged to its client
+	acked bool
+	// files of the in-flight key in the image; tie: two of them carry the same access time (which of them the loader
+	// keeps is then not determined by the directory)
+	keyFiles int
+	tie      bool
 }
 
 type c08Case struct {
@@ -57,6 +66,7 @@ type c08Case struct {
 	log      []string
 	hc       *lib.HookCtl
 	imgNo    int
+	opAcked  bool // the operation under test has returned success
 }
 
 func (c *c08Case) detail(img *c08Image, extra any) map[string]any {
@@ -71,13 +81,26 @@ func (c *c08Case) detail(img *c08Image, extra any) map[string]any {
 	return d
 }
 
+// copyFiles makes dst the image of src that a process kill at this instant would leave: same files, same bytes and
+// the same access / modification times (the loader orders entries by access time, and of two files of one key the
+// later one wins), copied in a deterministic order.
 func copyFiles(src, dst string) error {
 	files, err := lib.ListFiles(src)
 	if err != nil {
 		return err
 	}
+	rels := make([]string, 0, len(files))
 	for rel := range files {
-		b, err := os.ReadFile(filepath.Join(src, rel))
+		rels = append(rels, rel)
+	}
+	sort.Strings(rels)
+	for _, rel := range rels {
+		sp := filepath.Join(src, rel)
+		fi, err := os.Stat(sp) // before reading (a read may move the access time)
+		if err != nil {
+			continue // unlinked meanwhile
+		}
+		b, err := readFileNoAtime(sp) // taking the image must not itself change what a later image would show
 		if err != nil {
 			continue // unlinked meanwhile
 		}
@@ -86,8 +109,53 @@ func copyFiles(src, dst string) error {
 		if err := os.WriteFile(p, b, 0o644); err != nil {
 			return err
 		}
+		if err := os.Chtimes(p, fileAtime(fi), fi.ModTime()); err != nil {
+			return err
+		}
 	}
 	return nil
+}
+
+func readFileNoAtime(p string) ([]byte, error) {
+	f, err := os.OpenFile(p, os.O_RDONLY|syscall.O_NOATIME, 0)
+	if err != nil {
+		f, err = os.Open(p)
+		if err != nil {
+			return nil, err
+		}
+	}
+	defer func() { _ = f.Close() }()
+	return io.ReadAll(f)
+}
+
+func fileAtime(fi os.FileInfo) time.Time {
+	if st, ok := fi.Sys().(*syscall.Stat_t); ok {
+		return time.Unix(int64(st.Atim.Sec), int64(st.Atim.Nsec))
+	}
+	return fi.ModTime()
+}
+
+// keyFilesOf lists the files of one key in a cache directory (AC/RAW: <hash>-<random>; CAS: <hash>-<size>-<random> and
+// <hash>-<random>.v1) and reports whether two of them have the same access time.
+func keyFilesOf(dir string, kind cache.EntryKind, hash string) (n int, tie bool) {
+	des, _ := os.ReadDir(filepath.Join(dir, kind.DirName(), hash[:2]))
+	seen := map[int64]bool{}
+	for _, de := range des {
+		if !strings.HasPrefix(de.Name(), hash) {
+			continue
+		}
+		fi, err := de.Info()
+		if err != nil {
+			continue
+		}
+		n++
+		t := fileAtime(fi).UnixNano()
+		if seen[t] {
+			tie = true
+		}
+		seen[t] = true
+	}
+	return n, tie
 }
 
 func (c *c08Case) snap(live disk.Cache, pool *lib.DirPool, point string) {
@@ -103,6 +171,8 @@ func (c *c08Case) snap(live disk.Cache, pool *lib.DirPool, point string) {
 		c.r.Inconclusive("image copy: " + err.Error())
 		return
 	}
+	img.acked = c.opAcked
+	img.keyFiles, img.tie = keyFilesOf(img.dir, c.inflight.kind, c.inflight.hash)
 	c.images = append(c.images, img)
 }
 
@@ -158,7 +228,8 @@ func (c *c08Case) judgeImage(img *c08Image, bigMax bool) {
 	r.Distinct(c.op, img.point, c.before, c.after, lib.SizeClassName(len(c.inflight.value)))
 	r.Count("images." + c.op + "." + img.point)
 	// Finding keys name the failing input class: the on-disk format of the interrupted entry (what decides whether a
-	// partial file can be told from a complete one) and the symptom; operation and crash point go into the detail.
+	// partial file can be told from a complete one) and the symptom; for AC/RAW entries (one read path only) also the
+	// crash-point class; operation and details go into the detail.
 	format := c.inflight.kind.String()
 	if c.inflight.kind == cache.CAS {
 		format = map[string]string{"zstd": "cas-compressed", "uncompressed": "cas-raw-v1"}[c.before]
@@ -167,10 +238,41 @@ func (c *c08Case) judgeImage(img *c08Image, bigMax bool) {
 	if c.op == "bad-upload" {
 		keyBase += ":bad-upload" // the interrupted upload carried bytes that do not match its digest: nothing of it may ever be served
 	}
-	cch, _, err := lib.NewCache(lib.ServerOpts{Dir: img.dir, MaxSize: max, Storage: c.after})
-	if err != nil {
-		r.Violation(keyBase+":startup-failed", "restart on the crash image failed: "+err.Error(), c.detail(img, nil))
-		return
+	pointSuffix := ""
+	if c.inflight.kind != cache.CAS {
+		pointSuffix = ":" + img.point
+	}
+	inKey := cache.LookupKey(c.inflight.kind, c.inflight.hash)
+	inSize := int64(len(c.inflight.value))
+	// On a share of the images the restarted instance is a full in-process server (HTTP + gRPC front ends): the first
+	// request after the restart is then the client's repeat of the interrupted upload (CAS), or the front-end reads of
+	// the action cache (AC).
+	opts := lib.ServerOpts{Dir: img.dir, MaxSize: max, Storage: c.after, KeepDir: true}
+	var cch disk.Cache
+	var srv *lib.Server
+	if c.imgNo%4 == 1 && c.inflight.kind != cache.RAW {
+		if probe, _, err := lib.NewCache(opts); err != nil {
+			r.Violation(keyBase+":startup-failed", "restart on the crash image failed: "+err.Error(), c.detail(img, nil))
+			return
+		} else {
+			_ = probe // the loader accepted the image; the server below loads the same directory once more (a second restart)
+			lib.WaitEvictionsDrained(probe, 2*time.Second)
+		}
+		s2, err := lib.StartServer(opts)
+		if err != nil {
+			r.Inconclusive("in-process server on a crash image: " + err.Error()) // listeners / client, not the loader (that just succeeded)
+			return
+		}
+		srv, cch = s2, s2.Cache
+		defer srv.Close()
+		r.Count("restart.with-front-ends")
+	} else {
+		c2, _, err := lib.NewCache(opts)
+		if err != nil {
+			r.Violation(keyBase+":startup-failed", "restart on the crash image failed: "+err.Error(), c.detail(img, nil))
+			return
+		}
+		cch = c2
 	}
 	ctx := context.Background()
 	read := func(kind cache.EntryKind, hash string, size int64, zs bool) ([]byte, bool, error) {
@@ -195,7 +297,7 @@ func (c *c08Case) judgeImage(img *c08Image, bigMax bool) {
 	for _, k := range img.indexed {
 		indexed[k] = true
 	}
-	inKey := cache.LookupKey(c.inflight.kind, c.inflight.hash)
+	restarted := lib.Snapshot(cch) // what the loader indexed, before any read can drop an entry
 	// (1) in-flight key: absent or complete on every path; never bytes that no completed upload wrote
 	okValues := [][]byte{c.inflight.value}
 	if c.op == "bad-upload" {
@@ -204,6 +306,19 @@ func (c *c08Case) judgeImage(img *c08Image, bigMax bool) {
 	if c.oldValue != nil {
 		okValues = append(okValues, c.oldValue)
 	}
+	// the upload under test was acknowledged before this image was taken and the restart cannot evict anything: it
+	// MUST be served (and, for an overwrite, it is the new value that must be served - unless the loader cannot tell
+	// the two files of the key apart by their access times)
+	mustServeNew := img.acked && bigMax && c.op != "bad-upload" && c.op != "backend-fetch"
+	if mustServeNew && !(c.oldValue != nil && img.tie) {
+		okValues = [][]byte{c.inflight.value}
+	}
+	if img.tie {
+		r.Count("images.atime-tie-between-files-of-the-key")
+	}
+	// an overwrite was in flight (not yet acknowledged): the previously acknowledged value must still be served
+	// (or already the new one), never a miss
+	oldMustSurvive := c.oldValue != nil && !img.acked && bigMax
 	matches := func(b []byte) bool {
 		for _, v := range okValues {
 			if bytes.Equal(b, v) {
@@ -212,21 +327,92 @@ func (c *c08Case) judgeImage(img *c08Image, bigMax bool) {
 		}
 		return false
 	}
-	// (0) on some images: the interrupted upload is repeated by one client while another client is just reading the
+	matchesAR := func(res *pb.ActionResult) bool {
+		for _, v := range okValues {
+			want := &pb.ActionResult{}
+			if proto.Unmarshal(v, want) == nil && proto.Equal(res, want) {
+				return true
+			}
+		}
+		return false
+	}
+	// GetActionResult moves inlined stdout/stderr into the CAS (and returns their digests) unless the client asked for
+	// them inline: the comparison applies that published transformation to the stored value
+	matchesARDeinlined := func(res *pb.ActionResult) bool {
+		for _, v := range okValues {
+			want := &pb.ActionResult{}
+			if proto.Unmarshal(v, want) != nil {
+				continue
+			}
+			if len(res.StdoutRaw) == 0 && len(want.StdoutRaw) > 0 && want.StdoutDigest == nil {
+				want.StdoutDigest, want.StdoutRaw = lib.DigestOf(want.StdoutRaw), nil
+			}
+			if len(res.StderrRaw) == 0 && len(want.StderrRaw) > 0 && want.StderrDigest == nil {
+				want.StderrDigest, want.StderrRaw = lib.DigestOf(want.StderrRaw), nil
+			}
+			if proto.Equal(res, want) {
+				return true
+			}
+		}
+		return false
+	}
+	var lostOn []string // read paths on which a value that must be served was not
+	// (0a) first request after the restart = the client repeats the interrupted upload through a front end, as a
+	// build client does: FindMissingBlobs, then ByteStream.Write (identity / zstd) or HTTP PUT, then it reads.
+	repeatedFirst := false
+	if srv != nil && c.inflight.kind == cache.CAS && inSize+8192 < max {
+		cctx, cancel := lib.Ctx()
+		via := []string{"bytestream-write", "bytestream-write-zstd", "http-put"}[(c.imgNo/4)%3]
+		missing, ferr := srv.FindMissing(cctx, &pb.Digest{Hash: c.inflight.hash, SizeBytes: inSize})
+		switch {
+		case ferr != nil:
+			r.Count("repeat-first.findmissing.error")
+		case len(missing) == 0:
+			r.Count("repeat-first.findmissing.present")
+		default:
+			r.Count("repeat-first.findmissing.missing")
+		}
+		var perr error
+		switch via {
+		case "bytestream-write":
+			_, perr = srv.BSWrite(cctx, lib.ResUpload(uuidOf(c.rng), c.inflight.hash, inSize), c.inflight.value, 64*lib.KiB)
+		case "bytestream-write-zstd":
+			_, perr = srv.BSWrite(cctx, lib.ResUploadZstd(uuidOf(c.rng), c.inflight.hash, inSize), lib.ZstdEncodeKP(c.inflight.value, 1), 64*lib.KiB)
+		default:
+			if g := srv.HTTPPut("/cas/"+c.inflight.hash, c.inflight.value, nil); g.Err != nil || g.Status != 200 {
+				perr = fmt.Errorf("status %d err %v", g.Status, g.Err)
+			}
+		}
+		r.Count("repeat-first." + via + "." + okStr(perr == nil))
+		if perr != nil {
+			r.Violation(keyBase+":repeat-first:"+via+":failed", "repeating the interrupted upload as the first request after the restart failed: "+perr.Error(), c.detail(img, nil))
+		} else {
+			repeatedFirst = true
+			g := srv.HTTPGet("/cas/"+c.inflight.hash, nil)
+			got, rerr := srv.BSRead(cctx, lib.ResBlobs(c.inflight.hash, inSize), 0, 0)
+			if g.Status != 200 || !bytes.Equal(g.Body, c.inflight.value) || rerr != nil || !bytes.Equal(got, c.inflight.value) {
+				r.Violation(keyBase+":repeat-first:"+via+":acknowledged-but-not-served", fmt.Sprintf("the interrupted upload was repeated as the first request after the restart and acknowledged (FindMissingBlobs before it: missing=%d err=%v), but the blob is not served afterwards: GET -> %d (%d bytes), ByteStream.Read -> %d bytes err=%v; want %d bytes",
+					len(missing), ferr, g.Status, len(g.Body), len(got), rerr, inSize), c.detail(img, map[string]any{"via": via}))
+			}
+		}
+		cancel()
+	}
+	// (0b) on some images: the interrupted upload is repeated by one client while another client is just reading the
 	// torn entry (held at the point where it is about to drop it): the repeated, acknowledged upload must survive.
-	if c.hc != nil && c.inflight.kind == cache.CAS && c.op != "bad-upload" && c.imgNo%3 == 0 {
+	if c.hc != nil && c.inflight.kind == cache.CAS && c.op != "bad-upload" && c.imgNo%3 == 0 && !repeatedFirst {
 		g := c.hc.Gate("get.beforeFailedRemove", inKey, 1)
 		done := make(chan struct{})
 		go func() {
 			defer close(done)
-			_, _, _ = read(c.inflight.kind, c.inflight.hash, int64(len(c.inflight.value)), false)
+			_, _, _ = read(c.inflight.kind, c.inflight.hash, inSize, false)
 		}()
 		if g.WaitArrived(300 * time.Millisecond) {
-			perr := cch.Put(ctx, c.inflight.kind, c.inflight.hash, int64(len(c.inflight.value)), bytes.NewReader(c.inflight.value))
+			perr := cch.Put(ctx, c.inflight.kind, c.inflight.hash, inSize, bytes.NewReader(c.inflight.value))
 			g.Release()
 			<-done
 			r.Count("concurrent-repeat.reached")
 			if perr == nil {
+				repeatedFirst = true
 				if b, hit, err := read(c.inflight.kind, c.inflight.hash, -1, false); !hit || err != nil || !bytes.Equal(b, c.inflight.value) {
 					r.Violation(keyBase+":repeat-lost-to-concurrent-reader", fmt.Sprintf("the interrupted upload was repeated and acknowledged while another client was reading the torn entry; afterwards it is gone (hit=%v err=%v)", hit, err), c.detail(img, nil))
 				}
@@ -237,21 +423,42 @@ func (c *c08Case) judgeImage(img *c08Image, bigMax bool) {
 		}
 		c.hc.Ungate("get.beforeFailedRemove", inKey)
 	}
+	if repeatedFirst {
+		// the key now holds the repeated, acknowledged upload: that is what every path must serve from here on
+		okValues = [][]byte{c.inflight.value}
+		oldMustSurvive = false
+	}
 	if c.inflight.kind == cache.AC {
 		// validated lookup (gRPC GetActionResult / HTTP GET+HEAD of /ac): a hit must be one completed upload
 		res, _, verr := cch.GetValidatedActionResult(ctx, c.inflight.hash)
 		r.Count("inflight.validated-ac." + map[bool]string{true: "hit", false: "absent"}[res != nil])
-		if verr == nil && res != nil {
-			ok := false
-			for _, v := range okValues {
-				want := &pb.ActionResult{}
-				if proto.Unmarshal(v, want) == nil && proto.Equal(res, want) {
-					ok = true
+		if verr == nil && res != nil && !matchesAR(res) {
+			r.Violation(keyBase+":served-torn:validated-ac"+pointSuffix, "after restart the validated action-cache lookup answered a hit with a message that no completed upload stored (interrupted upload)", c.detail(img, map[string]any{"returned": res.String()}))
+		}
+		if res == nil && (mustServeNew || oldMustSurvive) {
+			lostOn = append(lostOn, "validated-ac")
+		}
+		if srv != nil {
+			// the same through the front ends
+			cctx, cancel := lib.Ctx()
+			g := srv.HTTPGet("/ac/"+c.inflight.hash, nil)
+			r.Count(fmt.Sprintf("inflight.http-get-ac.%d", g.Status))
+			if g.Status == 200 {
+				got := &pb.ActionResult{}
+				if g.BodyErr != nil || proto.Unmarshal(g.Body, got) != nil || !matchesAR(got) {
+					r.Violation(keyBase+":served-torn:http-get-ac"+pointSuffix, fmt.Sprintf("after restart GET /ac/<key> answered 200 with %d bytes that are not an ActionResult stored by a completed upload", len(g.Body)), c.detail(img, nil))
 				}
+			} else if mustServeNew || oldMustSurvive {
+				lostOn = append(lostOn, "http-get-ac")
 			}
-			if !ok {
-				r.Violation(keyBase+":served-torn:validated-ac", "after restart the validated action-cache lookup answered a hit with a message that no completed upload stored (interrupted upload)", c.detail(img, map[string]any{"returned": res.String()}))
+			ar, gerr := srv.AC.GetActionResult(cctx, &pb.GetActionResultRequest{ActionDigest: &pb.Digest{Hash: c.inflight.hash, SizeBytes: 1}})
+			r.Count("inflight.grpc-getactionresult." + lib.Code(gerr).String())
+			if gerr == nil && !matchesARDeinlined(ar) {
+				r.Violation(keyBase+":served-torn:grpc-getactionresult"+pointSuffix, "after restart GetActionResult returned a message that no completed upload stored", c.detail(img, map[string]any{"returned": ar.String()}))
+			} else if gerr != nil && (mustServeNew || oldMustSurvive) {
+				lostOn = append(lostOn, "grpc-getactionresult")
 			}
+			cancel()
 		}
 	}
 	present, _ := cch.Contains(ctx, c.inflight.kind, c.inflight.hash, -1)
@@ -262,7 +469,7 @@ func (c *c08Case) judgeImage(img *c08Image, bigMax bool) {
 	}
 	rds := []rd{{"get-unknown-size", -1, false}}
 	if c.inflight.kind == cache.CAS {
-		rds = append(rds, rd{"get-known-size", int64(len(c.inflight.value)), false}, rd{"getzstd", int64(len(c.inflight.value)), true})
+		rds = append(rds, rd{"get-known-size", inSize, false}, rd{"getzstd", inSize, true})
 	}
 	anyHit := false
 	for _, x := range rds {
@@ -271,13 +478,31 @@ func (c *c08Case) judgeImage(img *c08Image, bigMax bool) {
 		if hit {
 			anyHit = true
 			if err != nil || !matches(b) {
-				r.Violation(keyBase+":served-torn:"+x.name, fmt.Sprintf("after restart, %s of the key whose upload was in flight at the kill returned %d bytes that are not a completed upload (err=%v; complete value has %d bytes)", x.name, len(b), err, len(c.inflight.value)),
+				r.Violation(keyBase+":served-torn:"+x.name+pointSuffix, fmt.Sprintf("after restart, %s of the key whose upload was in flight at the kill returned %d bytes that are not a completed upload (err=%v; complete value has %d bytes)", x.name, len(b), err, len(c.inflight.value)),
 					c.detail(img, map[string]any{"returned_bytes": len(b)}))
+				if mustServeNew || oldMustSurvive {
+					lostOn = append(lostOn, x.name+"(torn)")
+				}
 			}
+		} else if mustServeNew || oldMustSurvive {
+			lostOn = append(lostOn, x.name)
 		}
 	}
 	if present && !anyHit && c.oldValue == nil {
 		r.Violation(keyBase+":reported-present-but-unreadable", "after restart the key of the interrupted upload was reported present by Contains/FindMissingBlobs although no read path can deliver it (neither absent nor complete)", c.detail(img, nil))
+	}
+	if len(lostOn) > 0 && mustServeNew {
+		r.Count("acked-inflight.lost")
+		r.Violation(keyBase+":just-acknowledged-lost", fmt.Sprintf("the upload under test had been acknowledged when the process was killed (%s), nothing can have been evicted, yet after the restart it is not served on: %v", img.point, lostOn), c.detail(img, map[string]any{"paths": lostOn, "files_of_key": img.keyFiles}))
+	} else if mustServeNew {
+		r.Count("acked-inflight.served")
+	}
+	if len(lostOn) > 0 && oldMustSurvive {
+		r.Count("overwrite-inflight.old-lost")
+		r.Violation(keyBase+":overwrite-in-flight:acknowledged-value-lost", fmt.Sprintf("the key held an acknowledged value and an overwrite / re-upload of it was in flight at the kill (%s, %d files of the key in the directory): after the restart neither the old nor the new complete value is served on: %v", img.point, img.keyFiles, lostOn),
+			c.detail(img, map[string]any{"paths": lostOn, "files_of_key": img.keyFiles, "atime_tie": img.tie}))
+	} else if oldMustSurvive {
+		r.Count("overwrite-inflight.old-or-new-served")
 	}
 	// (2) acknowledged entries (indexed at the crash instant, nothing evicted when restarting with a larger max_size)
 	for k, e := range c.acked {
@@ -296,6 +521,29 @@ func (c *c08Case) judgeImage(img *c08Image, bigMax bool) {
 			if b2, hit2, err2 := read(e.kind, e.hash, int64(len(e.value)), true); hit2 && (err2 != nil || !bytes.Equal(b2, e.value)) {
 				r.Violation(keyBase+":acked-served-wrong:getzstd", "acknowledged CAS entry reads back differently through GetZstd after the restart", c.detail(img, nil))
 			}
+		}
+	}
+	// (2b) EVERY entry of the restarted index (also files of evicted entries that were still awaiting their unlink and
+	// came back): whatever is served must match its digest (CAS) / be a completed upload of that key (AC, RAW)
+	for _, e := range restarted.Entries {
+		if e.Key == inKey {
+			continue
+		}
+		kind, hash := splitKey(e.Key)
+		b, hit, err := read(kind, hash, -1, false)
+		r.Count("restarted-entry.read")
+		if !hit {
+			continue
+		}
+		okb := err == nil
+		if okb && kind == cache.CAS {
+			okb = lib.Sha256Hex(b) == hash
+		} else if okb {
+			a := c.acked[e.Key]
+			okb = a != nil && bytes.Equal(a.value, b)
+		}
+		if !okb {
+			r.Violation(keyBase+":restarted-entry-served-wrong:"+kind.String(), fmt.Sprintf("entry %s of the restarted index (not the interrupted one) is served with %d bytes (err=%v) that do not match its digest / are no completed upload of that key", e.Key[:14], len(b), err), c.detail(img, nil))
 		}
 	}
 	// (3) accounting and directory of the restarted instance
@@ -318,8 +566,8 @@ func (c *c08Case) judgeImage(img *c08Image, bigMax bool) {
 		}
 	}
 	// (4) the interrupted upload can simply be repeated
-	if err := cch.Put(ctx, c.inflight.kind, c.inflight.hash, int64(len(c.inflight.value)), bytes.NewReader(c.inflight.value)); err != nil {
-		if int64(len(c.inflight.value))+8192 < max {
+	if err := cch.Put(ctx, c.inflight.kind, c.inflight.hash, inSize, bytes.NewReader(c.inflight.value)); err != nil {
+		if inSize+8192 < max {
 			r.Violation(keyBase+":repeat-failed", "repeating the interrupted upload after the restart failed: "+err.Error(), c.detail(img, nil))
 		}
 	} else if b, hit, err := read(c.inflight.kind, c.inflight.hash, -1, false); !hit || err != nil || !bytes.Equal(b, c.inflight.value) {
@@ -439,6 +687,7 @@ func (c *c08Case) run(pool *lib.DirPool, hc *lib.HookCtl) {
 		c.log = append(c.log, fmt.Sprintf("put err=%v reader calls=%d", err, len(cbCalls)))
 		if err == nil {
 			// acknowledged, old version (if any) and evicted files still on disk: one more kill instant
+			c.opAcked = true
 			c.snap(live, pool, "after-ack-before-unlink")
 		}
 	}
@@ -483,19 +732,54 @@ func installPointSnap(hc *lib.HookCtl, f func(point, key string)) func() {
 // ---------------------------------------------------------------------------
 // real kills (F-launcher)
 
-func (c *c08Case) realKill(r *lib.Run, rng *rand.Rand, mode, after string, hookKill string) {
+// c08Kill describes one real-kill case.
+type c08Kill struct {
+	variant string // what is in flight / just done when the process dies
+	hook    string // VERIF_HOOKS spec making the child kill itself at a hook point ("" = SIGKILL from outside)
+	realBin bool   // restart with the real bazel-remote executable instead of the launcher
+}
+
+var c08KillPlans = []c08Kill{
+	{"bs-new", "", false},                                   // new CAS upload over ByteStream, killed after message k
+	{"http-overwrite", "", false},                           // acknowledged CAS blob uploaded again over HTTP, killed mid-body
+	{"bs-new", "put.beforeCommit=kill:1", false},            // file complete and synced, not indexed
+	{"after-reply", "", false},                              // killed right after the acknowledgement reached the client
+	{"bs-new", "put.afterReserve=kill:1", false},            // space reserved, no file yet
+	{"ac-http", "put.beforeCommit=kill:1", false},           // action-cache upload over HTTP
+	{"bs-new", "", true},                                    // restart by the real executable
+	{"evict", "evict.beforeUnlink=kill:1", false},           // killed inside the background remover
+	{"http-new", "", false},                                 // new CAS upload over HTTP PUT, killed mid-body
+	{"after-reply", "", true},                               //
+	{"ac-http-overwrite", "put.beforeCommit=kill:2", false}, // second upload of an AC key dies before its commit
+}
+
+func (c *c08Case) realKill(r *lib.Run, rng *rand.Rand, mode, after string, plan c08Kill, repeatFirst bool) {
 	dir := lib.MkTemp("c08kill")
 	defer func() { _ = os.RemoveAll(dir) }()
+	hookKill := plan.hook
 	env := []string{}
 	if hookKill != "" {
 		env = append(env, "VERIF_HOOKS="+hookKill)
 	}
-	ch, err := lib.StartLauncher([]string{"-dir", dir, "-max_size", fmt.Sprint(64 * lib.MiB), "-storage", mode}, env)
+	maxSize := int64(64 * lib.MiB)
+	if plan.variant == "evict" {
+		maxSize = 300 * lib.KiB
+	}
+	ch, err := lib.StartLauncher([]string{"-dir", dir, "-max_size", fmt.Sprint(maxSize), "-storage", mode}, env)
 	if err != nil {
 		r.Inconclusive("launcher: " + err.Error())
+		stopChild(ch)
 		return
 	}
 	srv := lib.AttachServer(ch.HTTPAddr, ch.GRPCAddr)
+	keyBase := "C08:" + map[string]string{"zstd": "cas-compressed", "uncompressed": "cas-raw-v1"}[mode]
+	point := "real-kill:" + plan.variant
+	if hookKill != "" {
+		point += "@" + strings.SplitN(hookKill, "=", 2)[0]
+	}
+	detail := func(extra any) map[string]any {
+		return map[string]any{"case": c.id, "variant": plan.variant, "hook": hookKill, "mode_before": mode, "mode_after": after, "restart_with_real_binary": plan.realBin, "repeat_first": repeatFirst, "observed": extra}
+	}
 	// acknowledged blobs
 	type ack struct {
 		hash string
@@ -515,37 +799,117 @@ func (c *c08Case) realKill(r *lib.Run, rng *rand.Rand, mode, after string, hookK
 	}
 	in := lib.GenBlob(rng, []int{40000, 300000, lib.MiB + 4097, 2*lib.MiB + 5}[rng.IntN(4)], "random", c.id+"-inflight")
 	inHash := lib.Sha256Hex(in)
-	// stream the upload message by message and kill after message k
 	msgs := lib.Chunk(in, 16*lib.KiB)
 	k := 1 + rng.IntN(len(msgs))
-	point := "real-kill-after-message"
-	func() {
-		ctx, cancel := context.WithTimeout(context.Background(), 20*time.Second)
-		defer cancel()
-		st, err := srv.BS.Write(ctx)
-		if err != nil {
-			return
-		}
-		off := int64(0)
-		for i, m := range msgs {
-			req := &bspb.WriteRequest{WriteOffset: off, Data: m, FinishWrite: i == len(msgs)-1}
-			if i == 0 {
-				req.ResourceName = lib.ResUpload(uuidOf(rng), inHash, int64(len(in)))
+	mustServe := false // the in-flight blob was acknowledged before the kill
+	var acKey string
+	var acOld, acNew []byte
+	streamHTTP := func(path string, body []byte, killAfter int) {
+		parts := lib.Chunk(body, 16*lib.KiB)
+		pr, pw := io.Pipe()
+		req, _ := http.NewRequest("PUT", srv.HTTPURL+path, pr)
+		req.ContentLength = int64(len(body))
+		done := make(chan struct{})
+		go func() {
+			defer close(done)
+			if resp, err := srv.HTTPClient.Do(req); err == nil {
+				_, _ = io.Copy(io.Discard, resp.Body)
+				_ = resp.Body.Close()
 			}
-			if st.Send(req) != nil {
+		}()
+		for i, m := range parts {
+			if _, err := pw.Write(m); err != nil {
 				break
 			}
-			off += int64(len(m))
-			if hookKill == "" && i+1 == k {
+			if i+1 == killAfter {
 				time.Sleep(time.Duration(rng.IntN(3000)) * time.Microsecond)
 				ch.Kill()
-				return
+				break
 			}
 		}
-		_, _ = st.CloseAndRecv()
-	}()
+		_ = pw.CloseWithError(io.ErrUnexpectedEOF)
+		<-done
+	}
+	switch plan.variant {
+	case "bs-new":
+		// stream the upload message by message and kill after message k
+		func() {
+			ctx, cancel := context.WithTimeout(context.Background(), 20*time.Second)
+			defer cancel()
+			st, err := srv.BS.Write(ctx)
+			if err != nil {
+				return
+			}
+			off := int64(0)
+			for i, m := range msgs {
+				req := &bspb.WriteRequest{WriteOffset: off, Data: m, FinishWrite: i == len(msgs)-1}
+				if i == 0 {
+					req.ResourceName = lib.ResUpload(uuidOf(rng), inHash, int64(len(in)))
+				}
+				if st.Send(req) != nil {
+					break
+				}
+				off += int64(len(m))
+				if hookKill == "" && i+1 == k {
+					time.Sleep(time.Duration(rng.IntN(3000)) * time.Microsecond)
+					ch.Kill()
+					return
+				}
+			}
+			_, _ = st.CloseAndRecv()
+		}()
+	case "http-new":
+		streamHTTP("/cas/"+inHash, in, k)
+	case "http-overwrite":
+		if srv.HTTPPut("/cas/"+inHash, in, nil).Status != 200 {
+			r.Inconclusive("real kill " + c.id + ": the first upload of the blob to be overwritten was not acknowledged")
+			srv.CloseClient()
+			ch.Stop()
+			return
+		}
+		mustServe = true // old == new content: whichever file survives, the acknowledged blob must be served
+		streamHTTP("/cas/"+inHash, in, k)
+	case "after-reply":
+		ctx, cancel := lib.Ctx()
+		var perr error
+		if rng.IntN(2) == 0 {
+			_, perr = srv.BSWrite(ctx, lib.ResUpload(uuidOf(rng), inHash, int64(len(in))), in, 64*lib.KiB)
+		} else if g := srv.HTTPPut("/cas/"+inHash, in, nil); g.Status != 200 {
+			perr = fmt.Errorf("status %d %v", g.Status, g.Err)
+		}
+		cancel()
+		ch.Kill() // the acknowledgement has reached the client
+		if perr != nil {
+			r.Inconclusive("real kill " + c.id + ": upload before the kill failed: " + perr.Error())
+			srv.CloseClient()
+			ch.Stop()
+			return
+		}
+		mustServe = true
+	case "ac-http", "ac-http-overwrite":
+		acKey = lib.RandHash(rng)
+		mk := func(tag string, n int) []byte {
+			b, _ := proto.Marshal(&pb.ActionResult{ExitCode: 3, StdoutRaw: lib.GenBlob(rng, n, "text", c.id+tag), ExecutionMetadata: &pb.ExecutedActionMetadata{Worker: c.id + tag}})
+			return b
+		}
+		if plan.variant == "ac-http-overwrite" {
+			acOld = mk("-old", 50000)
+			if srv.HTTPPut("/ac/"+acKey, acOld, nil).Status != 200 {
+				acOld = nil
+			}
+		}
+		acNew = mk("-new", 90000)
+		srv.HTTPPut("/ac/"+acKey, acNew, nil) // dies at the hook
+	case "evict":
+		for i := 0; i < 12 && !ch.Exited(); i++ {
+			b := lib.GenBlob(rng, 60000+rng.IntN(20000), "random", fmt.Sprintf("%s-e%d", c.id, i))
+			h := lib.Sha256Hex(b)
+			if srv.HTTPPut("/cas/"+h, b, nil).Status == 200 {
+				acks = append(acks, ack{h, b})
+			}
+		}
+	}
 	if hookKill != "" {
-		point = "real-kill-at-hook:" + strings.SplitN(hookKill, "=", 2)[0]
 		if !ch.WaitExit(10 * time.Second) {
 			r.Count("realkill.hook-not-reached")
 			ch.Kill()
@@ -554,41 +918,133 @@ func (c *c08Case) realKill(r *lib.Run, rng *rand.Rand, mode, after string, hookK
 	srv.CloseClient()
 	ch.Stop()
 	// restart on the same directory (real start-up path in a fresh process)
-	ch2, err := lib.StartLauncher([]string{"-dir", dir, "-max_size", fmt.Sprint(64 * lib.MiB), "-storage", after}, nil)
-	keyBase := "C08:" + map[string]string{"zstd": "cas-compressed", "uncompressed": "cas-raw-v1"}[mode]
+	var ch2 *lib.Child
+	if plan.realBin {
+		if _, serr := os.Stat(lib.BinPath("bazel-remote")); serr != nil {
+			r.Count("realkill.real-binary-missing")
+			plan.realBin = false
+		}
+	}
+	if plan.realBin {
+		ch2, err = lib.StartBinary(lib.BinaryOpts{Dir: dir, Args: []string{"--storage_mode=" + after}, WaitReady: 60 * time.Second})
+		r.Count("realkill.restart.real-binary")
+	} else {
+		ch2, err = lib.StartLauncher([]string{"-dir", dir, "-max_size", fmt.Sprint(64 * lib.MiB), "-storage", after}, nil)
+		r.Count("realkill.restart.launcher")
+	}
 	r.Eval()
-	r.Distinct("realkill", mode, after, point, lib.SizeClassName(len(in)))
+	r.Distinct("realkill", mode, after, point, plan.realBin, lib.SizeClassName(len(in)))
 	r.Count("realkill." + point)
 	if err != nil {
-		r.Violation(keyBase+":startup-failed", "server did not start on the directory left by a killed server: "+err.Error(), map[string]any{"case": c.id, "log": ch2.LogTail(1500)})
-		ch2.Stop()
+		// Only an OBSERVED start-up failure refutes the property: the restarted process exited by itself, or reported
+		// that opening the cache failed. "Not ready in time", a log file that could not be created, a fork failure
+		// etc. say nothing about the directory: inconclusive.
+		if failed, log := launcherFailedToStart(ch2); failed {
+			r.Violation(keyBase+":startup-failed", "server did not start on the directory left by a killed server: "+err.Error(), detail(map[string]any{"log": log}))
+		} else {
+			r.Inconclusive("restart after real kill (" + c.id + "): " + err.Error())
+		}
+		stopChild(ch2)
 		return
 	}
 	defer ch2.Stop()
 	srv2 := lib.AttachServer(ch2.HTTPAddr, ch2.GRPCAddr)
 	defer srv2.CloseClient()
+	ctx, cancel := lib.Ctx()
+	defer cancel()
+	if acKey != "" {
+		// action-cache entry: absent, or one completed upload
+		okAR := func(b []byte) bool {
+			got := &pb.ActionResult{}
+			if proto.Unmarshal(b, got) != nil {
+				return false
+			}
+			for _, v := range [][]byte{acOld, acNew} {
+				want := &pb.ActionResult{}
+				if v != nil && proto.Unmarshal(v, want) == nil && proto.Equal(got, want) {
+					return true
+				}
+			}
+			return false
+		}
+		g := srv2.HTTPGet("/ac/"+acKey, nil)
+		r.Count(fmt.Sprintf("realkill.ac.get.%d", g.Status))
+		if g.Status == 200 && !okAR(g.Body) {
+			r.Violation("C08:ac:served-torn:http-get-ac:"+point, fmt.Sprintf("after a real kill during an action-cache upload GET /ac answered 200 with %d bytes that are no completed upload", len(g.Body)), detail(nil))
+		}
+		if g.Status != 200 && acOld != nil {
+			r.Violation("C08:ac:overwrite-in-flight:acknowledged-value-lost", fmt.Sprintf("an acknowledged action-cache entry was being overwritten when the process died (%s): after the restart GET /ac answers %d", point, g.Status), detail(nil))
+		}
+		if p := srv2.HTTPPut("/ac/"+acKey, acNew, nil); p.Status != 200 {
+			r.Violation("C08:ac:repeat-failed", fmt.Sprintf("repeating the interrupted action-cache upload after the restart failed: %d", p.Status), detail(nil))
+		} else if g := srv2.HTTPGet("/ac/"+acKey, nil); g.Status != 200 || !okAR(g.Body) {
+			r.Violation("C08:ac:repeat-not-readable", "repeated action-cache upload not readable", detail(nil))
+		}
+		return
+	}
+	if plan.variant == "evict" {
+		// the process died inside the background remover: whatever is served must be right, and at least the blobs
+		// acknowledged since the last eviction decision are still there (their files were never queued)
+		served := 0
+		for _, a := range acks {
+			g := srv2.HTTPGet("/cas/"+a.hash, nil)
+			if g.Status == 200 {
+				served++
+				if !bytes.Equal(g.Body, a.b) {
+					r.Violation(keyBase+":acked-served-wrong", "after a kill inside the background remover an acknowledged blob is served with wrong bytes", detail(nil))
+				}
+			}
+		}
+		r.CountN("realkill.evict.acked", int64(len(acks)))
+		r.CountN("realkill.evict.served-after-restart", int64(served))
+		b := lib.GenBlob(rng, 5000, "random", c.id+"-fresh")
+		if _, err := srv2.BSWrite(ctx, lib.ResUpload(uuidOf(rng), lib.Sha256Hex(b), int64(len(b))), b, 0); err != nil {
+			r.Violation(keyBase+":upload-after-restart-failed", "a fresh upload after the restart failed: "+err.Error(), detail(nil))
+		}
+		return
+	}
 	for _, a := range acks {
 		g := srv2.HTTPGet("/cas/"+a.hash, nil)
 		if g.Status != 200 || !bytes.Equal(g.Body, a.b) {
-			r.Violation(keyBase+":acked-lost", fmt.Sprintf("blob acknowledged before the kill: GET -> %d, %d bytes (want %d)", g.Status, len(g.Body), len(a.b)), map[string]any{"case": c.id})
+			r.Violation(keyBase+":acked-lost", fmt.Sprintf("blob acknowledged before the kill: GET -> %d, %d bytes (want %d)", g.Status, len(g.Body), len(a.b)), detail(nil))
 		}
+	}
+	if repeatFirst && !mustServe {
+		// first requests after the restart: FindMissingBlobs, the repeated upload, then the read
+		missing, ferr := srv2.FindMissing(ctx, &pb.Digest{Hash: inHash, SizeBytes: int64(len(in))})
+		r.Count(fmt.Sprintf("realkill.repeat-first.findmissing.missing=%d", len(missing)))
+		if _, err := srv2.BSWrite(ctx, lib.ResUpload(uuidOf(rng), inHash, int64(len(in))), in, 64*lib.KiB); err != nil {
+			r.Violation(keyBase+":repeat-first:bytestream-write:failed", "repeating the interrupted upload as the first request after the restart failed: "+err.Error(), detail(nil))
+		} else if g := srv2.HTTPGet("/cas/"+inHash, nil); g.Status != 200 || !bytes.Equal(g.Body, in) {
+			r.Violation(keyBase+":repeat-first:bytestream-write:acknowledged-but-not-served", fmt.Sprintf("the interrupted upload was repeated as the first request after the restart and acknowledged (FindMissingBlobs before it: missing=%d err=%v), but GET -> %d (%d bytes, want %d)", len(missing), ferr, g.Status, len(g.Body), len(in)), detail(nil))
+		}
+		r.Count("realkill.repeat-first")
+		return
 	}
 	g := srv2.HTTPGet("/cas/"+inHash, nil)
 	r.Count(fmt.Sprintf("realkill.inflight.get.%d", g.Status))
 	if g.Status == 200 && !bytes.Equal(g.Body, in) {
 		r.Violation(keyBase+":served-torn:get-unknown-size", fmt.Sprintf("after a real kill mid-upload, GET /cas returned %d bytes that do not match the digest (complete blob: %d bytes)", len(g.Body), len(in)),
-			map[string]any{"case": c.id, "mode_before": mode, "mode_after": after, "killed_after_message": k, "messages": len(msgs)})
+			detail(map[string]any{"killed_after_message": k, "messages": len(msgs)}))
 	}
-	ctx, cancel := lib.Ctx()
-	defer cancel()
-	if got, err := srv2.BSRead(ctx, lib.ResBlobs(inHash, int64(len(in))), 0, 0); err == nil && !bytes.Equal(got, in) {
-		r.Violation(keyBase+":served-torn:get-known-size", "after a real kill mid-upload, ByteStream.Read returned bytes that do not match the digest", map[string]any{"case": c.id})
+	got, rerr := srv2.BSRead(ctx, lib.ResBlobs(inHash, int64(len(in))), 0, 0)
+	if rerr == nil && !bytes.Equal(got, in) {
+		r.Violation(keyBase+":served-torn:get-known-size", "after a real kill mid-upload, ByteStream.Read returned bytes that do not match the digest", detail(nil))
+	}
+	if mustServe && (g.Status != 200 || rerr != nil) {
+		key := keyBase + ":just-acknowledged-lost"
+		if plan.variant == "http-overwrite" {
+			key = keyBase + ":overwrite-in-flight:acknowledged-value-lost"
+		}
+		r.Violation(key, fmt.Sprintf("a blob acknowledged before the process was killed (%s) is not served after the restart: GET -> %d, ByteStream.Read err=%v", point, g.Status, rerr), detail(map[string]any{"killed_after_message": k, "messages": len(msgs)}))
+	} else if mustServe {
+		r.Count("realkill.acknowledged-served")
 	}
 	// repeat the upload
 	if _, err := srv2.BSWrite(ctx, lib.ResUpload(uuidOf(rng), inHash, int64(len(in))), in, 64*lib.KiB); err != nil {
-		r.Violation(keyBase+":repeat-failed", "repeating the interrupted upload after the restart failed: "+err.Error(), map[string]any{"case": c.id})
+		r.Violation(keyBase+":repeat-failed", "repeating the interrupted upload after the restart failed: "+err.Error(), detail(nil))
 	} else if g := srv2.HTTPGet("/cas/"+inHash, nil); g.Status != 200 || !bytes.Equal(g.Body, in) {
-		r.Violation(keyBase+":repeat-not-readable", "repeated upload not readable", map[string]any{"case": c.id})
+		r.Violation(keyBase+":repeat-not-readable", "repeated upload not readable", detail(nil))
 	}
 }
 
@@ -599,7 +1055,7 @@ func runC08(r *lib.Run) {
 	r.Assume("process kill only (no power loss): an image is the set of files as visible to the OS at that instant")
 	r.Assume("entries indexed at the crash instant were acknowledged before it (commit precedes the reply)")
 	nCases := r.N(42, 560)
-	nKills := r.N(8, 120)
+	nKills := r.N(11, 132)
 	rng := r.Rng("c08")
 	hc := lib.NewHookCtl(uint64(r.Seed))
 	hc.Install()
@@ -645,10 +1101,10 @@ func runC08(r *lib.Run) {
 		r.CountN("hook."+k, v)
 	}
 	// real kills
-	hookKills := []string{"", "", "put.beforeCommit=kill:1", "put.afterReserve=kill:1", ""}
 	for i := 0; i < nKills; i++ {
 		c := &c08Case{id: fmt.Sprintf("C08-s%d-k%d", r.Seed, i)}
-		c.realKill(r, rng, modes[i%2], modes[(i/2)%2], hookKills[i%len(hookKills)])
+		round := i / len(c08KillPlans)
+		c.realKill(r, rng, modes[(i+round)%2], modes[(i/2+round)%2], c08KillPlans[i%len(c08KillPlans)], (i+round)%3 == 0)
 	}
 }
 
